@@ -288,7 +288,20 @@ def check_families(ctx):
         )
         b = _betas_nf(ex, betas)
         a = single_atom(b) if b is not None else None
-        okdiff = a is not None and a.kind == "app" and a.args[0] == "diff" and a.args[2] == "none" and a.args[3] == "none"
+        def absent(x):
+            return isinstance(x, str) and x == "none"
+
+        isdiff = a is not None and a.kind == "app" and a.args[0] == "diff" and absent(a.args[3])
+        if isdiff and not absent(a.args[2]):
+            # np.diff(min(D, S, I), prepend=0): the zero entry is prepended by np.diff itself
+            pre = a.args[2]
+            ok_pre = isinstance(pre, NF) and pre.is_zero()
+            ctx.check(ok_pre, rule, "combined|cumulative-layout", f.loc(), "cumulative penalties are [0, min_1, ..., min_p] (p+1 entries, entry 0 zero)", found=f"np.diff(..., prepend={pre!r})", expected="prepend=0")
+            inner_nf = lift(a.args[1])
+            ctx.check(nf_equal(inner_nf, want.nf), rule, "combined|pointwise-min", f.loc(), "cumulative penalties == min(dense, sparse, intermediate) each called with the caller's own (n, p, k, scale)", found=repr(inner_nf), expected=repr(want.nf))
+            scale_linear(ctx, "combined|pointwise-min", f.loc(), inner_nf, Atom("sym", "scale"))
+            continue
+        okdiff = isdiff and absent(a.args[2])
         if not okdiff:
             ctx.violation(rule, "combined|betas", f.loc(), "combined betas are not np.diff of the cumulative pointwise minimum", found=repr(b))
             continue
